@@ -56,10 +56,26 @@ func init() {
 		if len(want) == 0 {
 			fail("%s: callseq %s needs args.calls", it.File, it.Name)
 		}
+		// args.mark_defer (optional): a call that is the operand of a `defer` statement
+		// directly in the function body (not inside a block, loop or literal) is listed as
+		// "defer <callee>", so that "lock; defer unlock" (held to the end of the call)
+		// differs from "lock; unlock" and from a conditional defer.
+		markDefer, _ := it.Args["mark_defer"].(bool)
+		deferred := map[*ast.CallExpr]bool{}
+		if markDefer {
+			for _, st := range fd.Body.List {
+				if d, ok := st.(*ast.DeferStmt); ok {
+					deferred[d.Call] = true
+				}
+			}
+		}
 		var seq []string
 		ast.Inspect(fd.Body, func(n ast.Node) bool {
 			if c, ok := n.(*ast.CallExpr); ok {
 				if p := calleePath(c.Fun); want[p] {
+					if deferred[c] {
+						p = "defer " + p
+					}
 					seq = append(seq, p)
 				}
 			}
